@@ -251,6 +251,17 @@ def set_from_seq(interp, s: V.SymSeq):
     cache = cx.ghost.setdefault("set_cache", {})
     if key in cache:
         return cache[key]
+    if hasattr(s, "flat_parts"):
+        # set(flattened list of duplicate-free parts) = union of the parts; |union| = sum of |part| iff pairwise disjoint
+        sets = [p if isinstance(p, V.SymSet) else set_from_seq(interp, p) for p in s.flat_parts]
+        sets = [x for x in sets if not (isinstance(x, set) and not x)]
+        if not sets:
+            return set()
+        Su = lift_set(interp, sets[0])
+        for q in sets[1:]:
+            Su = set_union(interp, Su, lift_set(interp, q))
+        cache[key] = Su
+        return Su
     if hasattr(s, "concat_parts"):
         pa, pb = s.concat_parts
         sa, sb = set_from_seq(interp, pa), set_from_seq(interp, pb)
@@ -872,6 +883,8 @@ def finish_nested_parts(interp, out, kind):
         r = seqs[0]
         for q in seqs[1:]:
             r = binop(interp, ast.Add(), r, q)
+        if isinstance(r, V.SymSeq):
+            r.flat_parts = parts
         return r
     # set: union with cardinality facts (inclusion-exclusion, [L] Finset.card_union_add_card_inter)
     sets = [p if isinstance(p, V.SymSet) else set_from_seq(interp, p) for p in parts]
